@@ -794,7 +794,7 @@ namevals = {}
 def final():
     if autoprove: backend.prove()
     else :
-        if backend.process_snark: backend.process_snark(operation,namevals)
+        if getattr(backend, "process_snark", None): backend.process_snark(operation,namevals)
 
 import atexit
 from .atexitmaybe import maybe
